@@ -99,4 +99,16 @@ PROPS = {
         "assumptions": ["well-formed files as the assembler builds them (RIFF size = length - 8, chunks inside the file)"],
         "partial": ["C08.scan_full (first occurrence of every known chunk is registered with its exact payload range, for every chunk order / unknown chunks / padding) is stated, not yet proved; validated by the generated-layout correspondence"],
     },
+    "C14": {
+        "technique": "Lean 4 structural proofs (Kraft equality of any binary tree, limiting-loop step) + exhaustive small alphabets and adversarial families against a model that reproduces std's heap tie-breaking",
+        "level_text": "Theorems: histograms with fewer than two used symbols are signalled, others are not; the leaf depths of ANY binary tree satisfy the Kraft equality (so the unlimited code is complete whatever the heap's tie-breaking) and are >= 1; each move of the limiting loop lowers the scaled Kraft sum by exactly one. The composed statement for the final output (lengths in 1..limit, unused 0, Kraft equality, canonical bit-reversed code words; C14.full) is stated and in this pass is established by execution: on every run ALL frequency vectors over 2..5 symbols (frequencies 0..4/5, limits 2..4) and adversarial families on the three real alphabets (Fibonacci to depth 43, geometric, dominant, ties, Zipf, sparse, near-u32) are pushed through the real build_huffman_tree, compared with the Lean model (which transcribes std's BinaryHeap so ties agree; sort_unstable's tie order handled by a decidable admissibility predicate), and the property's clauses are evaluated on the real output, including decoding every code word with the crate's own decoder.",
+        "level_note": "Trusted: Lean kernel + standard axioms; std BinaryHeap behaviour is transcribed (tie-breaking validated by the correspondence, not assumed by the Kraft theorem); composition C14.full not yet a theorem.",
+        "design_ref": "DESIGN.md section 4, C14",
+        "trusted_base": COMMON_TB + [
+            "modelled, not verified: encoder.rs build_huffman_tree (all four phases; heap with element swaps instead of std's Hole; items carry subtrees instead of node indices)",
+            "specification: Prefix.kraft / canonicalCode / reverseBits - canonical code assignment of the lossless specification (RFC 1951 style next_code)",
+        ],
+        "assumptions": ["number of used symbols <= 2^limit (true for the alphabets the encoder uses: 16 <= 2^7, 256/280 <= 2^15)", "frequency total below 2^32 (pixel counts are at most 2^28)"],
+        "partial": ["C14.full (final lengths/codes satisfy every clause for every histogram) stated, not yet proved as one theorem; proved so far: tree_kraft, tree_lengths_pos, limit_move, lt2_signalled, ge2_not_single"],
+    },
 }
